@@ -22,6 +22,8 @@ type zzSt struct {
 	k    int    // literal for decl / loop bound
 	body []*zzSt
 	els  []*zzSt
+	elif []*zzSt // else-if branch (condition cond2), between body and els
+	cond2 string
 	cond string // c0 | c1 | !c0
 	lv   string // loop variable
 }
@@ -44,7 +46,7 @@ func zzGenBlock(cfg *zzGenCfg, depth int, inLoop, inFunc bool, ctr *int) []*zzSt
 			kinds = append(kinds, "decl") // at most one shadowing declaration per block
 		}
 		if depth < cfg.maxDepth {
-			kinds = append(kinds, "if", "ifelse", "while", "fornum", "forarr", "forstr", "formap")
+			kinds = append(kinds, "if", "ifelse", "ifelif", "while", "fornum", "forarr", "forstr", "formap")
 		}
 		if !inFunc && depth <= 1 {
 			kinds = append(kinds, "call")
@@ -67,8 +69,21 @@ func zzGenBlock(cfg *zzGenCfg, depth int, inLoop, inFunc bool, ctr *int) []*zzSt
 			declared = true
 		}
 		switch kind {
-		case "if", "ifelse":
+		case "if", "ifelse", "ifelif":
 			st.cond = []string{"c0", "c1", "!c0"}[zzChoice("cond", 3)]
+			if kind == "ifelif" {
+				// if / else if / else: the first branch is a fixed probe, the else-if branch is generated
+				st.kind = "if"
+				st.cond2 = []string{"c0", "c1", "!c0"}[zzChoice("cond", 3)]
+				*ctr++
+				st.body = []*zzSt{{kind: "print", k: *ctr}}
+				st.elif = zzGenBlock(cfg, depth+1, inLoop, inFunc, ctr)
+				if zzChoice("elifelse", 2) == 1 {
+					*ctr++
+					st.els = []*zzSt{{kind: "assign", k: *ctr}}
+				}
+				break
+			}
 			st.body = zzGenBlock(cfg, depth+1, inLoop, inFunc, ctr)
 			if kind == "ifelse" {
 				st.kind = "if"
@@ -97,6 +112,9 @@ func zzTerminates(st *zzSt) bool {
 		if st.els == nil {
 			return false
 		}
+		if st.elif != nil && !zzTerminates(st.elif[len(st.elif)-1]) {
+			return false
+		}
 		return zzTerminates(st.body[len(st.body)-1]) && zzTerminates(st.els[len(st.els)-1])
 	}
 	return false
@@ -107,6 +125,8 @@ type zzLayout struct {
 	blank      int  // blank lines between statements
 	comments   bool // trailing and own-line comments
 	tab        bool // indentation with a tab (source only; formatter normalises)
+	trail      bool // blanks and a tab after every line (after the comment, if any)
+	crlf       bool // lines end in CR LF
 }
 
 func zzRenderBlock(sb *strings.Builder, sts []*zzSt, ind int, lo zzLayout) {
@@ -119,8 +139,14 @@ func zzRenderBlock(sb *strings.Builder, sts []*zzSt, ind int, lo zzLayout) {
 		sp = "  "
 	}
 	eol := "\n"
+	if lo.crlf {
+		eol = "\r\n"
+	}
+	if lo.trail {
+		eol = "  \t" + eol
+	}
 	if lo.comments {
-		eol = " // c\n"
+		eol = " // c" + eol
 	}
 	for i, st := range sts {
 		if i > 0 {
@@ -150,6 +176,10 @@ func zzRenderBlock(sb *strings.Builder, sts []*zzSt, ind int, lo zzLayout) {
 		case "if":
 			sb.WriteString(pad + "if" + sp + st.cond + eol)
 			zzRenderBlock(sb, st.body, ind+1, lo)
+			if st.elif != nil {
+				sb.WriteString(pad + "else if" + sp + st.cond2 + eol)
+				zzRenderBlock(sb, st.elif, ind+1, lo)
+			}
 			if st.els != nil {
 				sb.WriteString(pad + "else" + eol)
 				zzRenderBlock(sb, st.els, ind+1, lo)
@@ -206,7 +236,7 @@ func zzGenProg(cfg *zzGenCfg) *zzProg {
 
 func zzUsesCall(sts []*zzSt) bool {
 	for _, s := range sts {
-		if s.kind == "call" || zzUsesCall(s.body) || zzUsesCall(s.els) {
+		if s.kind == "call" || zzUsesCall(s.body) || zzUsesCall(s.els) || zzUsesCall(s.elif) {
 			return true
 		}
 	}
@@ -310,6 +340,8 @@ func (r *zzRef) stmt(st *zzSt) int {
 		body := st.els
 		if r.cond(st.cond) {
 			body = st.body
+		} else if st.elif != nil && r.cond(st.cond2) {
+			body = st.elif
 		}
 		if body == nil {
 			return zzNormal
